@@ -219,3 +219,55 @@ pub assume_specification<T, A: Allocator>[ Vec::<T, A>::into_boxed_slice ](v: Ve
 //@|            if parse_seq_deep::<T>(s, pos) is Val { lemma_items_len::<T>(s.skip(8), pos + 8, usize::parse(s, pos)->Val_0 as nat); }
 //@|        }
 //@end
+
+
+// =========================================================================
+// String (impls/string.rs): a sequence of bytes (unit 1: no gap), read through the
+// zero-copy sequence reader, then validated. `String::from_utf8(v).unwrap()` either
+// returns the string of those bytes or panics (invalid UTF-8 is outside every
+// property's quantifier): recorded replacement by an assumed partial function.
+// The eps-copy half (`transmute` of the carved slice) is an assumed contract.
+// =========================================================================
+
+/// the string of UTF-8 bytes / the UTF-8 bytes of a string (uninterpreted)
+pub uninterp spec fn string_of(b: Seq<u8>) -> String;
+pub uninterp spec fn str_bytes(s: String) -> Seq<u8>;
+pub axiom fn axiom_str_bytes()
+    ensures forall|s: String| string_of(#[trigger] str_bytes(s)) == s && str_bytes(s).len() <= usize::MAX;
+
+#[verifier::external_body]
+pub fn assumed_from_utf8_unwrap(v: Vec<u8>) -> (r: String)
+    ensures r == string_of(v@),
+{ unimplemented!() }
+
+/// the macro-generated impls of u8 (impls/prim.rs), as V-TYPEINFO verifies them from the
+/// compiler's expansion: copy kind Zero, unit 1
+impl CopyType for u8 {
+    type Copy = Zero;
+}
+impl MaxSizeOf for u8 {
+    open spec fn unit() -> nat { 1 }
+    #[verifier::external_body]
+    fn max_size_of() -> (r: usize) { unimplemented!() }
+}
+/// a byte is its own memory image
+pub axiom fn axiom_image_u8()
+    ensures forall|b: Seq<u8>| #[trigger] image_seq::<u8>(b) == b;
+
+//@item epserde/src/impls/string.rs props=C01,C02,C11 name=String::DeserializeInner <<impl DeserializeInner for String {>>
+//@  replace <<deser::Result>> <<Result>>
+//@  replace <<String::from_utf8(slice).unwrap()>> <<assumed_from_utf8_unwrap(slice)>>
+//@  replace <<deserialize_full_vec_zero(backend)>> <<deserialize_full_vec_zero::<u8, _>(backend)>>
+//@  body_prefix
+//@|    open spec fn parse(s: Seq<u8>, pos: nat) -> PR<Self> { pr_map(parse_seq_zero::<u8>(s, pos), |b: Seq<u8>| string_of(b)) }
+//@|    open spec fn eps_rel<'a>(d: &'a str, v: Self) -> bool { d@ == v@ }
+//@|    proof fn lemma_prefix(s: Seq<u8>, pos: nat, k: nat) { lemma_seq_zero_prefix::<u8>(s, pos, k); }
+//@  sub <<fn _deserialize_full_inner(backend: &mut impl ReadWithPos) -> deser::Result<Self> {>>
+//@  impl_arg
+//@  ret r
+//@  body_prefix
+//@|        proof { axiom_u8_size(); axiom_zc_image::<u8>(); axiom_zc_seq::<u8>(); axiom_image_u8(); }
+//@  sub <<fn _deserialize_eps_inner<'a>(>>
+//@  ret r
+//@  external_body
+//@end
